@@ -11,6 +11,7 @@ import (
 	"sort"
 	"strings"
 	"sync"
+	"sync/atomic"
 	"time"
 
 	"github.com/alicebob/miniredis/v2"
@@ -73,6 +74,7 @@ type checkRun struct {
 	dirs    map[string]*Directive
 	expect  string
 	r       int // replica that serves the check
+	quiet   bool // only the request and the answer are logged (hammered checks: their store events are not ordered by the trace)
 }
 
 type browser struct {
@@ -103,6 +105,7 @@ type driver struct {
 	tmp     string
 	arrived chan *gate
 
+	jitter  atomic.Bool
 	mu      sync.Mutex
 	cur     *checkRun
 	now     int64
@@ -134,7 +137,17 @@ func newDriver(out, tmp string) (*driver, error) {
 	}
 	d := &driver{rec: rec, tmp: tmp, arrived: make(chan *gate)}
 	d.idp = newIDP(d)
-	oidc.VerifSetNow(func() time.Time { return baseTime.Add(time.Duration(d.nowSec()) * time.Second) })
+	var clockReads atomic.Uint64
+	oidc.VerifSetNow(func() time.Time {
+		if d.jitter.Load() {
+			// while same-session requests are hammered in parallel, reading the clock takes a while now and then: whatever
+			// window a store operation leaves open between two of its steps gets wider (no effect while a lock is held)
+			if n := clockReads.Add(1); n%1 == 0 {
+				time.Sleep(time.Duration(100+(n*7919)%900) * time.Microsecond)
+			}
+		}
+		return baseTime.Add(time.Duration(d.nowSec()) * time.Second)
+	})
 	return d, nil
 }
 
@@ -735,7 +748,7 @@ func (d *driver) prepare(st *Step) (*checkRun, *envoy.CheckRequest) {
 	}
 	br := d.browser(st.B)
 	d.nChecks++
-	c := &checkRun{id: st.C, n: d.nChecks, f: f.Name, b: st.B, done: make(chan struct{}), defAns: st.Ans, dirs: st.Dirs, expect: st.Expect, r: max(st.R, 0)}
+	c := &checkRun{id: st.C, n: d.nChecks, f: f.Name, b: st.B, done: make(chan struct{}), defAns: st.Ans, dirs: st.Dirs, expect: st.Expect, r: max(st.R, 0), quiet: st.Shape == "sameSessionParallel"}
 	if c.id == "" {
 		c.id = fmt.Sprintf("k%d", c.n)
 	}
